@@ -210,6 +210,8 @@ def run(prop, tier):
                              'violations': a['nfail'], 'rule': sub.rule}
         if a['cov']:
             per_sub[sub.name]['coverage'] = a['cov']
+        if a['nfail']:
+            continue        # a failing sub-check stops early; its counts say nothing about vacuity
         if a['cases'] < sub.min_cases:
             harness.append('vacuity: %s explored %d cases (< %d)' % (sub.name, a['cases'], sub.min_cases))
         if a['nontrivial'] < sub.min_nontrivial:
@@ -247,12 +249,14 @@ def run(prop, tier):
         replay_paths.append((path, fl))
         shown += 1
     confirm = replay_paths[:2]
+    nonrepro = False
     for path, fl in confirm:
         env = dict(os.environ)
         env.pop('HXVERIF_SNAPSHOT', None)
         rc = subprocess.run([sys.executable, '-m', 'hxverif.run', prop, '--replay', path],
                             cwd=HERE, env=env, stdout=subprocess.PIPE, stderr=subprocess.STDOUT)
         if rc.returncode != 1:
+            nonrepro = True
             harness.append('verdict did not reproduce in a fresh process (rc=%d): %s\n%s' % (
                 rc.returncode, path, rc.stdout.decode(errors='replace')[-800:]))
 
@@ -273,9 +277,9 @@ def run(prop, tier):
     for name, s in per_sub.items():
         print('  %-28s cases=%-9d evals=%-9d nontrivial=%-9d classes=%-4d viol=%d' % (
             name, s['cases'], s['evaluations'], s['nontrivial'], s['outcome_classes'], s['violations']))
-    if harness:
-        for h in harness[:10]:
-            print('HARNESS-ERROR: ' + h)
+    for h in harness[:10]:
+        print('HARNESS-ERROR: ' + h)
+    if nonrepro or (harness and not (new or total_fail > stored)):
         return 2
     if new or total_fail > stored:
         for path, fl in replay_paths:
